@@ -197,11 +197,12 @@ func (ex *Exec) vsetOf(s *Term) *byteSet {
 // unary evaluates a single-symbol condition over the symbol's value set.
 func (ex *Exec) unary(c *Term) (anyTrue, anyFalse bool) {
 	bs := ex.vsetOf(c.single)
+	tab := c.table()
 	for v := 0; v < 256; v++ {
 		if bs[v/64]&(1<<uint(v%64)) == 0 {
 			continue
 		}
-		if evalByte(c, uint64(v), map[*Term]uint64{}) != 0 {
+		if tab[v] != 0 {
 			anyTrue = true
 		} else {
 			anyFalse = true
@@ -216,8 +217,9 @@ func (ex *Exec) unary(c *Term) (anyTrue, anyFalse bool) {
 func (ex *Exec) noteConjunct(c *Term) {
 	if c.single != nil {
 		bs := ex.vsetOf(c.single)
+		tab := c.table()
 		for v := 0; v < 256; v++ {
-			if bs[v/64]&(1<<uint(v%64)) != 0 && evalByte(c, uint64(v), map[*Term]uint64{}) == 0 {
+			if bs[v/64]&(1<<uint(v%64)) != 0 && tab[v] == 0 {
 				bs[v/64] &^= 1 << uint(v%64)
 			}
 		}
@@ -411,6 +413,11 @@ func (ex *Exec) concretize(t *Term, max int, what string) uint64 {
 	}
 	var vals []int64
 	pc2 := append([]*Term{}, ex.pc...)
+	// read the value through a fresh constant: evaluating a declared constant in the model is
+	// much cheaper for the solver than evaluating a defined term
+	ex.symSeq["casesplit"]++
+	probe := ex.ts.Sym(t.w, fmt.Sprintf("casesplit#%d.%d", len(ex.decisions), ex.symSeq["casesplit"]))
+	pc2 = append(pc2, ex.ts.mk(OpEq, 0, probe, t, nil, 0, ""))
 	for {
 		r := ex.w.solver.Check(pc2, nil)
 		if r == Unknown {
@@ -420,7 +427,7 @@ func (ex *Exec) concretize(t *Term, max int, what string) uint64 {
 		if r == Unsat {
 			break
 		}
-		v, ok := ex.w.solver.Value(t)
+		v, ok := ex.w.solver.Value(probe)
 		if !ok {
 			ex.end("internal", "no value for term in case split")
 		}
